@@ -16,7 +16,7 @@ META = {
     "assumptions": ["oracle is the statement: contiguity, containment, pairwise disjointness, ancilla coverage minus one slot per 0-round block, translation by the cycle length, estimate inverts size = repetitions x cycle"],
     "exhaustive": {"quick": True, "thorough": True},
     "floors": {
-        "quick": {"experiments": 2500, "kernels_checked": 9000, "ancilla_coverage_checks": 3000, "translation_checks": 2500, "estimate_checks": 2500, "large_experiments": 50, "large_beyond_int32": 15, "experiments_without_calibration_points": 800, "large_getter_reads": 1000},
+        "quick": {"experiments": 2500, "kernels_checked": 9000, "ancilla_coverage_checks": 3000, "translation_checks": 2500, "estimate_checks": 2500, "large_experiments": 50, "large_beyond_int32": 15, "experiments_without_calibration_points": 800, "medium_round_experiments": 20, "large_getter_reads": 1000},
         "thorough": {"experiments": 19000, "kernels_checked": 70000, "large_experiments": 500, "large_beyond_int32": 200},
     },
 }
@@ -40,6 +40,7 @@ def plan(tier: str, seed: int) -> List[Dict[str, Any]]:
     n = len(enumerate_cases(tier))
     shards = [{"kind": "enum", "tier": tier, "part": i, "parts": 16, "hashseed": 0, "total": n} for i in range(16)]
     shards.append({"kind": "large", "n": 60 if tier == "quick" else 600, "seed": common.seed_base(seed, 121), "hashseed": 0})
+    shards.append({"kind": "medium", "n": 24 if tier == "quick" else 200, "seed": common.seed_base(seed, 122), "hashseed": 0})
     if tier == "thorough":
         shards.append({"kind": "random", "n": 3000, "seed": common.seed_base(seed, 12), "hashseed": 0})
     return shards
@@ -120,8 +121,15 @@ def check_case(case: Dict[str, Any], acc: Acc):
         acc.count("translation_checks")
         for n in rounds:
             for name in ("get_heralded_cycle_acquisition_indices", "get_stabilizer_and_projected_cycle_acquisition_indices", "get_projected_cycle_acquisition_indices"):
-                arr = np.asarray(getattr(kernel, name)(qubit_id=q, cycle_stabilizer_count=n))
+                # the round count is passed as an independently created int object of the same value
+                arr = np.asarray(getattr(kernel, name)(qubit_id=q, cycle_stabilizer_count=int(str(n))))
                 if arr.size == 0:
+                    rk0 = kernels[rounds.index(n)]
+                    own0 = {"get_heralded_cycle_acquisition_indices": list(rk0.get_heralded_measurement_index(q)),
+                            "get_stabilizer_and_projected_cycle_acquisition_indices": list(rk0.get_ordered_stabilizer_measurement_indices(q)) + list(rk0.get_final_measurement_index(q)),
+                            "get_projected_cycle_acquisition_indices": list(rk0.get_final_measurement_index(q))}[name]
+                    if own0:
+                        acc.finding("translation/empty", f"{name} returns nothing for a block whose kernel lists indices for the qubit", wrap, {"qubit": q.id, "n": n, "kernel": own0[:6]})
                     continue
                 if arr.shape[0] != reps:
                     acc.finding("translation/shape", f"{name} does not return one row per experiment repetition", wrap, {"shape": list(arr.shape)})
@@ -354,6 +362,15 @@ def run_shard(shard: Dict[str, Any]) -> Acc:
         acc.count("enumerated_space_size", shard["total"] if shard["part"] == 0 else 0)
         return acc
     rng = random.Random(shard["seed"])
+    if shard["kind"] == "medium":
+        # round counts beyond the range of shared small-int objects (and of the enumerated domain), all getters read in full
+        for i in range(shard["n"]):
+            case = {"rounds": rng.sample([0, 1, 2, 257, 300, 511, 1000], rng.randint(1, 3)), "heralded": rng.random() < 0.5, "reps": rng.choice([1, 2, 3]),
+                    "ids": rng.randrange(len(ID_SETS))}
+            acc.count("medium_round_experiments")
+            acc.case(bp.phash(case), True, sample=case if i < 2 else None)
+            common.guarded(acc, check_case, case, acc, case={"experiment": case})
+        return acc
     if shard["kind"] == "large":
         for i in range(shard["n"]):
             length = rng.randint(1, 3)
